@@ -1095,6 +1095,8 @@ class Interp(object):
                 raise self.err('`in` on arrays')
             if isinstance(a, (Poly, Rat, Arr, Unk)):
                 raise self.err('symbolic membership test')
+            if isinstance(a, (bool, int)) and isinstance(b, (list, tuple)) and any(isinstance(e, Unk) for e in b):
+                raise self.err('membership test in a container holding an undetermined value')
             r = a in b
             return r if T is ast.In else not r
         sym = _CMP_SYM[T]
@@ -1257,6 +1259,11 @@ class Interp(object):
             return round(c) if nd is None else round(c, nd)
 
         def b_bool(x=False):
+            if isinstance(x, Unk) and I.branch_oracle is not None and I.cur is not None:
+                # bool() of an undetermined value is a decision point like a branch: the result may be stored in a
+                # container and tested later (`False in flags`), where an undetermined element would go unnoticed
+                module, node = I.cur
+                return I.truth(x, node, Frame(module))
             if isinstance(x, Unk):
                 return x
             return I.truth(x, ast.Constant(value=None), Frame(None))
@@ -1332,7 +1339,7 @@ class Interp(object):
 
 _NDARRAY_ATTRS = frozenset(['real', 'imag', 'shape', 'size', 'ndim', 'conj', 'conjugate', 'clip', 'ravel',
                             'flatten', 'T', 'flat', 'squeeze', 'item', 'dtype', 'reshape', 'sum', 'any', 'all',
-                            'max', 'min', 'astype', 'copy', 'transpose', 'tolist', 'dot'])
+                            'max', 'min', 'astype', 'copy', 'transpose', 'tolist', 'dot', 'tobytes', 'tostring'])
 
 
 def _unwrap0(fn):
